@@ -348,9 +348,16 @@ def check_stop(ctx, prog):
                 if is_loop_work(w):
                     st = True
         return st
-    cfgm.dataflow(cfg, False, step2, edge)
-    ctx.check(not taken_back, 'C14.stop', f['pq'], 'startLoop:the stop request is not taken back by the loop', fwhere(f, taken_back[0] if taken_back else None), 'no `_requestStop = false` after the first wait/accept',
-              'the accept loop stores `_requestStop = false` (line %s) after it started accepting: a serve() that polls the flag a moment later never sees the request, its connection stays in flight and stop(true) does not return' % (taken_back[0] if taken_back else ''))
+    # when startLoop() is the body of the accept thread (called from a run() / thread function), it runs concurrently with the
+    # creator from its first statement: stop() may already have been called when the thread gets there, so a clear at the top
+    # erases a request as well (the clear for a restart belongs in start(), before the thread is created)
+    threaded = [g for g in prog.functions if g.get('body') and g is not f and (g['n'] == 'run' or g.get('lambda') or g['n'].startswith('operator()')) and
+                any(w.get('k') == 'call' and (w.get('pq') or '') == f.get('pq') for w in fn_exprs(g))]
+    cfgm.dataflow(cfg, bool(threaded), step2, edge)
+    ctx.check(not taken_back, 'C14.stop', f['pq'], 'startLoop:the stop request is not taken back by the loop', fwhere(f, taken_back[0] if taken_back else None),
+              'no `_requestStop = false` after the first wait/accept' + (', nor anywhere in the loop function, which %s runs as the accept thread' % threaded[0]['pq'] if threaded else ''),
+              'the accept loop stores `_requestStop = false` (line %s) %s: a stop() issued a moment earlier is erased - the loop does not end (or a serve() that polls the flag never sees the request), and stop(true) does not return' % (
+                  taken_back[0] if taken_back else '', 'while it runs as the accept thread (%s), concurrently with its creator' % threaded[0]['pq'] if threaded else 'after it started accepting'))
     # stop(true): sets the request, then returns only when the loop has ended and no serve() is in flight.  Decided on the CFG
     # of stop(): with (sync, _running, _numClients) bound, follow only the branch edges their conditions allow, starting after
     # the poll sleep: the function exit may be reachable without sleeping again only for (_running, _numClients) = (false, 0)
